@@ -83,10 +83,28 @@ Calls ==
      {MkCall("ESDTTransfer", a, b, <<TokArg(t), NumArgC(q)>>, 0) : a \in Holders, b \in Holders, t \in {TokF, TokAlias}, q \in Amts}
      \cup {MkCall("ESDTTransfer", a, "c1a", <<TokArg(TokF), NumArgC(1), RawArg("66")>>, 0) : a \in {"u0a", "u1a"}}
    ELSE {})
+  \cup (IF "ESDTTransfer" \in Fns THEN
+     \* flagged return-after-error on the sender side (a callback moving funds), including more than the sender holds
+     {[MkCall("ESDTTransfer", a, b, <<TokArg(TokF), NumArgC(q)>>, 2) EXCEPT !.rae = TRUE] : a \in Holders, b \in Holders, q \in 1..3}
+   ELSE {})
   \cup (IF "issue" \in Fns THEN {MkCall("ESDTTransfer", "esdtsc", b, <<TokArg(TokF), NumArgC(1)>>, 0) : b \in {"u0b", "u1a"}} ELSE {})
   \cup (IF "ESDTNFTTransfer" \in Fns THEN
      {MkCall("ESDTNFTTransfer", a, a, <<TokArg(t), NumArgC(n), NumArgC(q), AddrArgC(b)>>, 0) :
         a \in Holders, b \in Holders, t \in {TokN, TokAlias}, n \in 0..2, q \in Amts}
+   ELSE {})
+  \cup (IF "ESDTNFTTransfer" \in Fns THEN
+     \* with an attached call, to the contract on shard 1 (same shard for u1a, cross-shard for the others)
+     {MkCall("ESDTNFTTransfer", a, a, <<TokArg(TokN), NumArgC(1), NumArgC(1), AddrArgC("c1a"), RawArg("66"), RawArg("01")>>, 0) : a \in Hs}
+   ELSE {})
+  \cup (IF "MultiESDTNFTTransfer" \in Fns THEN
+     \* the fungible key "46" named through the empty token id and nonce 0x46; the NFT key "4e01" named through "" and nonce 0x4e01
+     {MkCall("MultiESDTNFTTransfer", a, a, <<AddrArgC(b), NumArgC(1), TokArg(""), NumArgC(n), NumArgC(1)>>, 0) : a \in Hs, b \in Hs, n \in {70, 19969}}
+   ELSE {})
+  \cup (IF "ESDTNFTTransfer" \in Fns THEN
+     {MkCall("ESDTNFTTransfer", a, a, <<TokArg(""), NumArgC(n), NumArgC(1), AddrArgC(b)>>, 0) : a \in Hs, b \in Hs, n \in {70, 19969}}
+   ELSE {})
+  \cup (IF "MultiESDTNFTTransfer" \in Fns THEN
+     {MkCall("MultiESDTNFTTransfer", a, a, <<AddrArgC("c1a"), NumArgC(1), TokArg(t), NumArgC(n), NumArgC(1), RawArg("66")>>, 0) : a \in Hs, t \in {TokF, TokN}, n \in 0..1}
    ELSE {})
   \cup (IF "MultiESDTNFTTransfer" \in Fns THEN
      {MkCall("MultiESDTNFTTransfer", a, a, <<AddrArgC(b), NumArgC(1), TokArg(t), NumArgC(n), NumArgC(q)>>, 0) :
@@ -97,6 +115,8 @@ Calls ==
   \cup (IF "mintburn" \in Fns THEN
      {MkCall(f, a, a, <<TokArg(t), NumArgC(q)>>, 0) : f \in {"ESDTLocalMint", "ESDTLocalBurn"}, a \in {"u0a", "u0b"}, t \in {TokF, TokN}, q \in Amts}
      \cup {MkCall("ESDTBurn", a, "esdtsc", <<TokArg(TokF), NumArgC(q)>>, 0) : a \in {"u0a", "u1a"}, q \in 1..2}
+     \cup {[MkCall(f, "u0a", "u0a", <<TokArg(TokF), NumArgC(q)>>, 0) EXCEPT !.rae = TRUE] : f \in {"ESDTLocalBurn", "ESDTLocalMint"}, q \in 1..3}
+     \cup {[MkCall("ESDTBurn", "u0a", "esdtsc", <<TokArg(TokF), NumArgC(q)>>, 0) EXCEPT !.rae = TRUE] : q \in 1..3}
    ELSE {})
   \cup (IF "create" \in Fns THEN
      {MkCall("ESDTNFTCreate", a, a, <<TokArg(TokN), NumArgC(q)>> \o Meta1, 0) : a \in Hs, q \in Amts}
@@ -178,11 +198,11 @@ Finish(c, r, kind) ==
       h2 == HistStep(h, w, e) IN
   /\ Bounded(r.w, h2)
   /\ w' = r.w /\ h' = h2 /\ cfg' = cfg
-  /\ ev' = [a |-> e.a, fn |-> e.fn, caller |-> e.caller, rcpt |-> e.rcpt, res |-> e.res, sh |-> e.sh, gas |-> e.gas, ct |-> e.ct, mid |-> e.mid,
+  /\ ev' = [a |-> e.a, fn |-> e.fn, caller |-> e.caller, rcpt |-> e.rcpt, res |-> e.res, sh |-> e.sh, gas |-> e.gas, ct |-> e.ct, mid |-> e.mid, rae |-> e.rae,
             args |-> [i \in 1..Len(e.args) |-> IF e.args[i].he THEN "" ELSE e.args[i].h]]   \* enough to replay the step on the real code
   /\ viol' = {n \in DirectNames \cap Checked : ~StepPred(n, w, e, r.w, h, r)}
   /\ ((EmitTransitions /\ (r.ok \/ (kind = "exec" /\ Pre(c) /\ RandomElement(1..RejSample) = 1))) => PrintT(<<"TRANS", ToJson([w |-> w, res |-> e.res,
-                                c |-> [a |-> e.a, fn |-> e.fn, caller |-> e.caller, rcpt |-> e.rcpt, res |-> e.res, sh |-> e.sh, gas |-> e.gas, ct |-> e.ct, mid |-> e.mid,
+                                c |-> [a |-> e.a, fn |-> e.fn, caller |-> e.caller, rcpt |-> e.rcpt, res |-> e.res, sh |-> e.sh, gas |-> e.gas, ct |-> e.ct, mid |-> e.mid, rae |-> e.rae,
                                        args |-> [i \in 1..Len(e.args) |-> IF e.args[i].he THEN "" ELSE e.args[i].h]]])>>))
 
 DoExec == \E c0 \in Calls, g \in GasPoints :
@@ -193,7 +213,7 @@ DoExec == \E c0 \in Calls, g \in GasPoints :
 \* the node offers a new gas schedule: a complete one is adopted, an incomplete one is ignored
 Sched1 == [x \in DOMAIN Sched0 |-> IF SubSeq(x, 1, 1) = "B" THEN 7 ELSE 2]
 DoSched == "sched" \in Fns /\ \E sc \in {Sched0, Sched1} : sc # w.sched /\ w' = [w EXCEPT !.sched = sc] /\ UNCHANGED <<cfg, h>> /\ viol' = {}
-              /\ ev' = [a |-> "sched", fn |-> (IF sc = Sched0 THEN "0" ELSE "1"), caller |-> "", rcpt |-> "", res |-> "ok", sh |-> 0, gas |-> 0, ct |-> 0, mid |-> -1, args |-> <<>>]
+              /\ ev' = [a |-> "sched", fn |-> (IF sc = Sched0 THEN "0" ELSE "1"), caller |-> "", rcpt |-> "", res |-> "ok", sh |-> 0, gas |-> 0, ct |-> 0, mid |-> -1, rae |-> FALSE, args |-> <<>>]
 
 DoDeliver ==
   \E i \in 1..Len(w.msgs) : ~w.msgs[i].dead /\
@@ -202,7 +222,7 @@ DoDeliver ==
          c == [DeliverCall(m) EXCEPT !.snd = FALSE, !.dst = TRUE] @@ [a |-> "deliver", mid |-> m.id, dup |-> FALSE] IN
      ~r.unk /\ Finish(c, r, "deliver")
 
-Init == cfg = MCCfg /\ w = W0 /\ h = [supply |-> (TokF :> 2), maxn |-> <<>>, made |-> {}, flagged |-> {}] /\ ev = [a |-> "init", fn |-> "", caller |-> "", rcpt |-> "", res |-> "ok", sh |-> 0, gas |-> 0, ct |-> 0, mid |-> -1, args |-> <<>>] /\ viol = {}
+Init == cfg = MCCfg /\ w = W0 /\ h = [supply |-> (TokF :> 2), maxn |-> <<>>, made |-> {}, flagged |-> {}] /\ ev = [a |-> "init", fn |-> "", caller |-> "", rcpt |-> "", res |-> "ok", sh |-> 0, gas |-> 0, ct |-> 0, mid |-> -1, rae |-> FALSE, args |-> <<>>] /\ viol = {}
 Next == DoExec \/ DoDeliver \/ DoSched
 Spec == Init /\ [][Next]_vars
 
